@@ -7,12 +7,11 @@ from vlib.common import PROVED, REFUTED, UNKNOWN
 
 # obligations that are refuted on the unchanged tree inside the region of a recorded finding (each has a sibling obligation that is
 # PROVED under the complementary precondition, which is what makes the region exact).  The two other findings of this module
-# (partial removal unguarded, stale path of further row groups of a renamed file) were repaired in /repo (7ff1610, 75dfd7f):
+# (partial removal unguarded, stale path of further row groups of a renamed file, Timestamp / float32 partition texts in overwrite)
+# were repaired in /repo (7ff1610, 75dfd7f, 1c32364):
 # `fixed-*` records suppress nothing, their obligations must be PROVED
 KNOWN = [
     (c09_edits.FID_COLLIDE, re.compile(r"^rename\..*\[any numbering\]$")),
-    (c09_edits.FID_TS_TEXT, re.compile(r"^overwrite\.partition_text_conventions_agree\[(category of )?datetime64")),
-    (c09_edits.FID_F32_TEXT, re.compile(r"^overwrite\.partition_text_conventions_agree\[float32 \(inexact decimals\)\]$")),
 ]
 FUNC = [("row_groups_map.", "api.row_groups_map"), ("remove", "api.ParquetFile.remove_row_groups"), ("overwrite.partition_text", "writer.overwrite"), ("overwrite", "writer.overwrite"),
         ("part_ids", "api.part_ids"), ("partitions", "api.partitions"), ("rename", "api.ParquetFile._sort_part_names"),
